@@ -26,11 +26,23 @@ class P:
 
         def ok(c, o):
             return o.startswith("ok")
-        return [{"name": "quoted-strings", "harness": "quote", "driver": None, "cases": cases, "impl_ok": ok, "chunk": 100,
+        # scanner correspondence: the word the parser builds for each pure style vs the scanner model (Lex/Quote.v)
+        sc = []
+        for s in strs:
+            if "'" not in s:
+                sc.append("s\t" + hx(s))
+            sc.append("d\t" + hx(s))
+            if "\n" not in s and s != "":
+                sc.append("b\t" + hx(s))
+        return [{"name": "scanner-model", "harness": "qword", "driver": "qword", "cases": sc,
+                 "nontrivial": lambda c: len(c.split("\t")[1]) >= 2, "distribution": {"cases": len(sc)}},
+                {"name": "quoted-strings", "harness": "quote", "driver": None, "cases": cases, "impl_ok": ok, "chunk": 100,
                  "nontrivial": lambda c: len(c.split("\t")[0]) >= 2,
                  "distribution": {"strings": len(cases)}}]
 
     def describe(self, part, case):
+        if part == "scanner-model":
+            return "scan of style %s quoting of %r" % (case.split("\t")[0], unhx(case.split("\t")[1]).decode("utf-8", "replace"))
         return "quoting of %r%s" % (unhx(case.split("\t")[0]).decode("utf-8", "replace"), " (files present)" if case.endswith("1") else "")
 
     def classify(self, part, case, impl, model, judge, findings):
@@ -38,6 +50,15 @@ class P:
 
     def replay(self, payload, C):
         c = payload["case"]
+        if payload.get("part") == "scanner-model":
+            i = C.run_harness("qword", [c])[0]
+            m, _ = C.run_driver("qword", [c], [i])[0]
+            print("case :", c, "\nimpl :", i, "\nmodel:", m)
+            if i != m:
+                print("VIOLATION property=C15 replay=(replayed)")
+                return 1
+            print("replay: property holds on this case now")
+            return 0
         o = C.run_harness("quote", [c])[0]
         print("case :", self.describe(None, c))
         print("impl :", o[:400])
